@@ -169,7 +169,7 @@ def run_one(seed, preset=None, tier="quick", want_case=False):
     r["digest"] = run_digest(out.trace, out.events, out.resp, repr(out.exc))
     r["case_digest"] = run_digest(case.text, raw)
     r["nontrivial"] = bool(not viol and any(v is not None for v in raw.values()))
-    r["sched_kinds"] = {sched[0]: 1}
+    r["sched_kinds"] = {sched[0] + ("+eager" if sched[2].endswith("+eager") else ""): 1}
     r["faults"] = {"variables_" + k: n for k, n in mutations.items()}
     r["metrics"] = {"variables": nvars}
     r["probes"] = {"verdict_reject": int(plan.refused and not plan.var_ambiguous), "verdict_accept": int(not plan.refused),
